@@ -74,6 +74,7 @@ type Pkt struct {
 	Seq, AckN               uint32
 	Payload                 []byte
 	Retx                    bool          // an inserted duplicate
+	Probe                   bool          // a keep-alive probe (deviation ka): one garbage byte at the sequence number of the last byte sent
 	Tie                     bool          // same timestamp as the previous packet of the capture
 	Gap                     time.Duration // idle time before this packet
 	V6                      bool
@@ -286,6 +287,36 @@ func (c *Capture) MaxSilence() time.Duration {
 		last[p.Conv] = p.TS
 	}
 	return max
+}
+
+// ProbeBeforeData: a further deviation moved a keep-alive probe in front of (part of) the data whose last byte it
+// repeats with a garbage value.  A probe is only ever sent for a byte the peer has acknowledged; captured ahead of
+// that byte it is a segment that CONTRADICTS the data, and which of two contradicting copies of a byte a monitor
+// keeps is its policy, not something the endpoints' conversation defines.
+func (c *Capture) ProbeBeforeData() bool {
+	type key struct{ conv, dir int }
+	end := map[key]uint32{}
+	seen := map[key]bool{}
+	for _, p := range c.Packets {
+		if p.Conv < 0 || p.UDP || p.FragPart > 1 {
+			continue
+		}
+		k := key{p.Conv, p.Dir}
+		if p.Probe {
+			if !seen[k] || int32(p.Seq+1-end[k]) > 0 {
+				return true
+			}
+			continue
+		}
+		n := uint32(len(p.Payload))
+		if p.SYN || p.FIN {
+			n++
+		}
+		if e := p.Seq + n; !seen[k] || int32(e-end[k]) > 0 {
+			end[k], seen[k] = e, true
+		}
+	}
+	return false
 }
 
 // SplitDatagrams counts the fragmented datagrams whose two fragments lie in different capture files.
@@ -709,6 +740,7 @@ func applyConvDev(list []*Pkt, d Dev) ([]*Pkt, error) {
 		c.PSH = false
 		c.Seq = p.Seq + uint32(len(p.Payload)) - 1
 		c.Payload = []byte{0}
+		c.Probe = true
 		out := append([]*Pkt{}, list[:d.I+1]...)
 		out = append(out, c)
 		return append(out, list[d.I+1:]...), nil
